@@ -169,8 +169,31 @@ def cases(draw):
     return {'tasks': tasks}
 
 
+# short-form strings as such (DESIGN: the fuzz target, here as a Hypothesis part:
+# atheris is not installed): pieces of paths, URLs, blanks and operators
+_PIECES = ['a', 'in.dat', 'out', 'da/', 'db/x.y', '/', '/abs/p', 'client:///', 'task:///',
+           'pilot:///', 'file:///', 'file://localhost/', '.', '..', '-', '_', '1',
+           ' ', '  ', '\t', '>', '>>', '<', '<<', '>', '<']
+
+
+_WORDS  = [x for x in _PIECES if x.strip() and '<' not in x and '>' not in x]
+_BLANKS = ['', '', ' ', '  ', '\t']
+
+
+@st.composite
+def short_forms(draw):
+    if draw(st.booleans()):
+        # well-formed: one side, one operator, other side (constructed)
+        side = st.lists(st.sampled_from(_WORDS), min_size=1, max_size=3).map(''.join)
+        return {'raw': draw(st.sampled_from(_BLANKS)) + draw(side) + draw(st.sampled_from(_BLANKS))
+                       + draw(st.sampled_from(['>', '>>', '<', '<<']))
+                       + draw(st.sampled_from(_BLANKS)) + draw(side) + draw(st.sampled_from(_BLANKS))}
+    return {'raw': ''.join(draw(st.lists(st.sampled_from(_PIECES), min_size=1, max_size=7)))}
+
+
 def parts(tier):
-    return [Part('staging_bulks', cases(), quick=320, thorough=2500)]
+    return [Part('staging_bulks', cases(), quick=300, thorough=2000),
+            Part('short_form_strings', short_forms(), quick=400, thorough=4000)]
 
 
 # ------------------------------------------------------------------------------
@@ -354,8 +377,67 @@ def _short(x):
 
 
 # ------------------------------------------------------------------------------
+def _run_short_form(case, res):
+    """string short form -> dict: the two sides of the one operator end up as
+    source and target (by the direction of the arrow), blanks stripped; no
+    operator: target is the base name of the source path; action TRANSFER"""
+    import re
+    raw = case.get('raw')
+    if not isinstance(raw, str):
+        return
+    ops = re.findall(r'[<>]+', raw)
+    if len(ops) > 1 or (ops and ops[0] not in ('>', '>>', '<', '<<')):
+        res.label('sf:not_wellformed')          # nothing demanded
+        want = None
+    elif ops:
+        left, right = [x.strip() for x in raw.split(ops[0])]
+        if not left or not right:
+            res.label('sf:empty_side')
+            want = None
+        else:
+            res.label('sf:one_op', 'sf:op%s' % ops[0])
+            want = (left, right) if ops[0][0] == '>' else (right, left)
+    else:
+        src = raw.strip()
+        if not src or src.startswith('//') or src.endswith('/') or src.endswith('.') \
+                or '://' in src[1:] and \
+                not re.match(r'^(client|task|pilot|file):///[^:]*$', src):
+            res.label('sf:bare_odd')            # empty / directory-like / odd URL: not demanded
+            want = None
+        else:
+            res.label('sf:bare')
+            path = src.split('://', 1)[1] if '://' in src else src
+            if path.startswith('localhost/'):
+                path = path[len('localhost'):]
+            want = (src, os.path.basename(path))
+    try:
+        got = expand_staging_directives([raw])
+    except ValueError:
+        if want:
+            res.fail('short_form_rejected:%s' % (ops[0] if ops else 'bare'), repr(raw))
+        return
+    except Exception as e:                                              # noqa
+        if want:
+            res.fail(exc_sig('short_form_raised', e), '%r: %r' % (raw, e))
+        return
+    if want is None:
+        return
+    res.nontrivial = bool(ops)
+    if len(got) != 1:
+        res.fail('short_form_count', '%r -> %r' % (raw, got))
+        return
+    have = (got[0].get('source'), got[0].get('target'))
+    if have != want or got[0].get('action') != rpc.TRANSFER:
+        res.fail('short_form_wrong:%s' % (ops[0] if ops else 'bare'),
+                 '%r -> source %r target %r action %r, expected source %r target %r action %r'
+                 % (raw, have[0], have[1], got[0].get('action'), want[0], want[1], rpc.TRANSFER))
+
+
 def run_case(case):
     res  = CaseResult()
+    if 'raw' in case:
+        _run_short_form(case, res)
+        return res
     root = boot.fresh_dir('c11.')
     try:
         _run(case, res, root)
